@@ -813,7 +813,10 @@ class Dict(dict, base.Symbolic, pg_typing.CustomTyping):
 
     if value_spec:
       try:
-        self.use_value_spec(value_spec, self._allow_partial)
+        # NOTE: the defaults are filled in silently; the only change event
+        # of the call is the one computed below from the old and new content.
+        with flags.notify_on_change(False):
+          self.use_value_spec(value_spec, self._allow_partial)
       except Exception:
         # The schema does not accept an empty dict: keep the old content.
         super().clear()
